@@ -56,7 +56,7 @@ def cbytes(b):  # noqa: F811  (transport encoding of Run/C18.v: 7 bytes per 63-b
             n = 1
             while b[i + n * per:i + (n + 1) * per] == pat:
                 n += 1
-            if n * per >= 64 and (best is None or n * per > best[0] * best[1]):
+            if n >= 2 and n * per >= 64 and (best is None or n * per > best[0] * best[1]):
                 best = (n, per)
         if best:
             n, per = best
